@@ -41,13 +41,15 @@ fn decode(tape: &[u32]) -> Case {
     let o = GenOpts { acts: &[ActK::Linear, ActK::Tanh, ActK::Sigmoid, ActK::Leaky], max_hw: 4, max_c: 2, allow_feedback: false, allow_pool: true, ..GenOpts::default() };
     // Build 2-5 layers, steering towards repeated element counts so that connections exist:
     // with probability 1/2 a layer is forced to reproduce the element count of an earlier input.
-    let input = if t.bool() { vec![t.usize(1, 2), t.usize(1, 4), t.usize(1, 4)] } else { vec![t.usize(1, 8)] };
-    let nl = t.usize(2, 5);
+    // one case in 40: a flat network whose tensors hold 65..300 elements throughout (accumulations over long vectors)
+    let wide = t.chance(1, 100);
+    let input = if wide { vec![t.usize(65, 300)] } else if t.bool() { vec![t.usize(1, 2), t.usize(1, 4), t.usize(1, 4)] } else { vec![t.usize(1, 8)] };
+    let nl = if wide { t.usize(2, 3) } else { t.usize(2, 5) };
     let mut layers: Vec<LayerSpec> = Vec::new();
     let mut cur = input.clone();
     let mut counts = vec![count(&cur)];
     for i in 0..nl {
-        let want_repeat = t.bool();
+        let want_repeat = t.bool() || wide;
         let l = if want_repeat && !(i == 0 && cur.len() == 3) {
             // dense layer reproducing an earlier element count
             let n = counts[t.pick(counts.len())];
@@ -80,7 +82,7 @@ fn decode(tape: &[u32]) -> Case {
         (0..ncalls).map(|_| if !proper.is_empty() && t.chance(4, 5) { proper[t.pick(proper.len())] } else { pairs[t.pick(pairs.len())] }).collect()
     };
     let acc = ACCS[t.pick(5)];
-    let gradient = t.chance(1, 3);
+    let gradient = t.chance(1, 3) && spec.input.iter().product::<usize>() <= 130; // (the derivative oracle is quadratic in the width)
     Case { spec, calls, acc: if gradient { Acc::Add } else { acc }, wseed: t.raw(), xseed: t.raw(), tseed: t.raw(), gradient, obj: [ObjK::MSE, ObjK::AE, ObjK::RMSE][t.pick(3)] }
 }
 
@@ -274,7 +276,7 @@ impl Prop for C16 {
         t.pick(200_000, 10_000_000)
     }
     fn rule(&self) -> String {
-        "tape-decoded 2-5-layer network (dense / convolution / deconvolution / max-pool, steered so that element counts repeat, flat<->spatial crossings occur) + 1-3 connect(a, b) calls drawn from all pairs a <= b with equal element counts (a = b, a = 0, repeated targets, repeated sources, chains (0,1),(1,2)) + one of five accumulations. Oracles: (a) acceptance model - calls with sources and targets distinct from earlier ones must be accepted, and after every accepted call all earlier pairs must still be present; (b) predict == hand-composition of the library's own layers where layer b receives acc(ordinary input, reshape(input of a)) (<= 2 ulp; when a source is itself a target both readings of 'its input' are accepted); (c) in 1/3 of the cases, additive accumulation and the C01 derivative check (f64 reference network with the skip connections) on every parameter gradient; in a third of those the network is first trained for two epochs with only the earlier connections and the last 1..n connections are added afterwards (history: build, connect, learn, connect, differentiate). Non-trivial: an accepted connection with a < b. Distinct = (architecture, accepted connections, accumulation).".into()
+        "tape-decoded 2-5-layer network (dense / convolution / deconvolution / max-pool, steered so that element counts repeat, flat<->spatial crossings occur; one case in 100 is a flat network of width 65-300 throughout, gradient-checked up to width 130) + 1-3 connect(a, b) calls drawn from all pairs a <= b with equal element counts (a = b, a = 0, repeated targets, repeated sources, chains (0,1),(1,2)) + one of five accumulations. Oracles: (a) acceptance model - calls with sources and targets distinct from earlier ones must be accepted, and after every accepted call all earlier pairs must still be present; (b) predict == hand-composition of the library's own layers where layer b receives acc(ordinary input, reshape(input of a)) (<= 2 ulp; when a source is itself a target both readings of 'its input' are accepted); (c) in 1/3 of the cases, additive accumulation and the C01 derivative check (f64 reference network with the skip connections) on every parameter gradient; in a third of those the network is first trained for two epochs with only the earlier connections and the last 1..n connections are added afterwards (history: build, connect, learn, connect, differentiate). Non-trivial: an accepted connection with a < b. Distinct = (architecture, accepted connections, accumulation).".into()
     }
     fn run_case(&self, tape: &[u32], ev: &mut CaseEv) -> CheckResult {
         check(&decode(tape), ev, self.0)
